@@ -279,7 +279,24 @@ func (f *fixture) exchange(kind string, msg []byte, via string, wait time.Durati
 			return exchResult{status: "err:dial"}
 		}
 		defer c.Close()
-		c.Write(frame(msg))
+		fr := frame(msg)
+		switch via { // segmentation of the client's byte stream
+		case "split1": // the length prefix arrives in two pieces
+			c.Write(fr[:1])
+			time.Sleep(3 * time.Millisecond)
+			c.Write(fr[1:])
+		case "split2": // prefix, then body
+			c.Write(fr[:2])
+			time.Sleep(3 * time.Millisecond)
+			c.Write(fr[2:])
+		case "split3": // cut inside the body
+			k := 2 + len(msg)/2
+			c.Write(fr[:k])
+			time.Sleep(3 * time.Millisecond)
+			c.Write(fr[k:])
+		default:
+			c.Write(fr)
+		}
 		c.SetReadDeadline(time.Now().Add(wait))
 		b, err := readFrame(c)
 		if err != nil {
